@@ -26,6 +26,7 @@ def stop_case(draw):
           "slow_arms": draw(st.booleans()),     # the slow handler ends by arming a timed source
           "crash": draw(st.integers(0, 4)) == 0,  # a handler raises: the thread is gone before stop() is called
           "same_name": draw(st.integers(0, 3)) == 0,  # the other object carries the same name
+          "live": draw(st.sampled_from([None, None, "spy", "trace", "both"])),   # the stopped object prints live
           "schedule": [list(x) for x in draw(schedule_st)]}
 
 
@@ -39,7 +40,7 @@ class C12(Prop):
   thorough_examples = 4000
   rule = ("Generated scenarios under the deterministic scheduler and virtual clock: an ActiveObject "
           "with 0-3 timed sources (periods 0.25-1.0, endless or 4 shots, over three signal names), a second ActiveObject "
-          "subscribed to a signal, plain posts queued before the stop, optionally a handler that raises (so the "
+          "subscribed to a signal, plain posts queued before the stop, optionally live spy/trace output switched on for the object that is stopped, optionally a handler that raises (so the "
           "object's thread has already ended when stop() is called from outside), optionally a handler "
           "that takes 0.3-1.0 s of virtual time and is running when stop() is called; stop() is called at a "
           "generated virtual instant (a multiple of 0.25, so it often coincides with a timer firing "
@@ -90,6 +91,13 @@ class C12(Prop):
           info["handler_stop_ret"] = s.steps
           info["stop_now"] = s.now
       chart, fn = w.make_chart(s, "ao1", on_extra=on_extra)
+      if case.get("live"):
+        # the object that will be stopped hands its live output to the shared writer thread
+        sink = []
+        chart.live_spy = case["live"] in ("spy", "both")
+        chart.live_trace = case["live"] in ("trace", "both")
+        chart.register_live_spy_callback(sink.append)
+        chart.register_live_trace_callback(sink.append)
 
       def on_other(c, e):
         if e.signal_name == "VSTOP":
